@@ -35,6 +35,8 @@ def run(chk):
         run_config(chk, Facts(cfg), cfg)
     from . import trec
     trec.run_scope(chk, "C01-e", scope="read", floor=8)
+    from .c04 import check_readers
+    check_readers(chk, "C01-d")
     chk.assume("overflow Asserts in hand-written table helpers outside the core zone, loop termination and the linear-time clause "
                "are not decided (see DESIGN.md)")
 
